@@ -1271,6 +1271,13 @@ func (m *c15Model) finalLabels() {
 		if snap.State == invpkg.ContractSettled {
 			m.label("invoice_settled")
 		}
+		if snap.State == invpkg.ContractCanceled {
+			for _, ch := range snap.Htlcs {
+				if ch.State == invpkg.HtlcStateAccepted {
+					m.label("obs:accepted_htlc_on_canceled_invoice")
+				}
+			}
+		}
 	}
 	if m.diverged {
 		m.label("differential_off_after_batch")
